@@ -25,7 +25,7 @@ def _run(ctx):
     _ords = Ordinals()
     prog = ctx.prog
     wrappers = [f for f in prog.fns.values() if (f.info.get("self_adt") or "").endswith("BankAccountWrapper") and f.info["crate"] == "marginfi"]
-    resetters = [k for k, kinds in writers_of(prog, BALANCE, "*") if "assign" in kinds]
+    resetters = balance_resetters(prog, BALANCE)[0]
     ca = [k for k, kinds in writers_of(prog, BANK, "total_asset_shares") if "assign" in kinds]
     cl = [k for k, kinds in writers_of(prog, BANK, "total_liability_shares") if "assign" in kinds]
     if len(resetters) != 1 or len(ca) != 1 or len(cl) != 1:
